@@ -457,6 +457,7 @@ class Frame:
     on_yield: "Callable | None" = None
     base_pc: int = 0
     end_states: list = field(default_factory=list)
+    partial: bool = False  # some path of the call does not return normally (raise / failed assert / a callee that does not return)
 
 
 class Trace:
@@ -803,6 +804,8 @@ class SymX:
         if isinstance(s, ast.Raise):
             if s.exc is not None:
                 self.eval(s.exc, st)
+            if st.alive:
+                self.frame.partial = True
             st.alive = False
             return st
         if isinstance(s, (ast.Continue, ast.Break)):
@@ -844,9 +847,19 @@ class SymX:
             return out
         if isinstance(s, ast.Assert):
             f = self.truth(self.eval(s.test, st))
+            if f != TRUE:
+                self.frame.partial = True
             st.pc = st.pc + (f,) if f != TRUE else st.pc
             return st
-        if isinstance(s, (ast.Pass, ast.Import, ast.ImportFrom, ast.Global, ast.Nonlocal, ast.Delete)):
+        if isinstance(s, ast.Delete):
+            for t in s.targets:
+                if isinstance(t, ast.Subscript):
+                    # `del xs[i]` / `del xs[:]`: recorded like the other in-place updates of a container (the key is read off the node)
+                    base = self.eval(t.value, st)
+                    self._record("delitem", ("builtin", "delitem"), base, "__delitem__", (self.eval(t.slice, st),), (), st, t, None)
+                    self._mutate(base, "__delitem__", (), st)
+            return st
+        if isinstance(s, (ast.Pass, ast.Import, ast.ImportFrom, ast.Global, ast.Nonlocal)):
             return st
         if isinstance(s, (ast.FunctionDef, ast.AsyncFunctionDef)):
             nf = getattr(s, "_func", None)
@@ -1507,8 +1520,9 @@ class SymX:
         cur = self.eval(s.target, st)
         val = self.eval(s.value, st)
         op = _BINOPS.get(type(s.op), "?")
-        if cur[0] != "box" and op == "+" and (val[0] in ("list",) or val[0] == "box" and val[2] == "list" or val[0] == "comp" and val[1] == "list") and isinstance(s.target, ast.Name):
-            # `xs += [..]` with a list on the right: xs is a list, extended in place (the name keeps denoting the same object)
+        if cur[0] not in ("box", "binop", "list", "tuple") and op == "+" and (val[0] in ("list",) or val[0] == "box" and val[2] == "list" or val[0] == "comp" and val[1] == "list") and isinstance(s.target, ast.Name):
+            # `xs += [..]` with a list on the right: xs is a list, extended in place (the name keeps denoting the same object);
+            # a value that was just built by a display / concatenation has no other name: the rebinding below describes it
             self._record("mut", ("method", "extend"), cur, "extend", (val,), (), st, s, None)
             self._mutate(cur, "extend", (val,), st)
             return st
@@ -2260,6 +2274,8 @@ class SymX:
         if not frame.returns:
             st.alive = False
             st.envs = st.envs[:depth]
+            if self.frames:
+                self.frame.partial = True
             return ("unk", "no return", self.fresh()), st
         alts = [(simplify(f_and(pc[base:])), t) for pc, t, _h in frame.returns]
         res = phi(alts)
@@ -2272,7 +2288,11 @@ class SymX:
         st.envs = merged.envs
         st.heap = merged.heap
         # whatever the callee tested is no longer part of the caller's path condition, except that the callee returned at all
-        extra = simplify(f_or([f_and(pc[base:]) for pc, _t, _h in frame.returns]))
+        # (a call that cannot end abnormally returns on every path: the disjunction of its return conditions is a tautology, whether
+        # or not the enumeration is small enough to see it)
+        extra = simplify(f_or([f_and(pc[base:]) for pc, _t, _h in frame.returns])) if frame.partial else TRUE
+        if frame.partial and extra != TRUE and self.frames:
+            self.frame.partial = True
         st.pc = st.pc[:base] if extra == TRUE else st.pc[:base] + (extra,)
         st.alive = True
         return res, st
